@@ -969,6 +969,107 @@ def _fresh_input_atom(key, fresh):
     return hit
 
 
+def _split_top(text, sep):
+    """split at `sep` outside brackets and string literals"""
+    out, depth, cur, q, i = [], 0, '', None, 0
+    while i < len(text):
+        ch = text[i]
+        if q:
+            cur += ch
+            if ch == '\\' and i + 1 < len(text):
+                cur += text[i + 1]
+                i += 1
+            elif ch == q:
+                q = None
+        elif ch in '\'"':
+            q = ch
+            cur += ch
+        else:
+            if ch in '([{':
+                depth += 1
+            elif ch in ')]}':
+                depth -= 1
+            if depth == 0 and text.startswith(sep, i):
+                out.append(cur)
+                cur = ''
+                i += len(sep)
+                continue
+            cur += ch
+        i += 1
+    out.append(cur)
+    return out
+
+
+def _unwrap_unit_linear(o):
+    """L[+1*x] (a sum with the single term x) is x"""
+    out, i = '', 0
+    while True:
+        j = o.find('L[', i)
+        if j < 0 or (j > 0 and (o[j - 1].isalnum() or o[j - 1] == '_')):
+            if j < 0:
+                return out + o[i:]
+            out += o[i:j + 2]
+            i = j + 2
+            continue
+        depth, k = 0, j + 1
+        while k < len(o):
+            if o[k] in '([{':
+                depth += 1
+            elif o[k] in ')]}':
+                depth -= 1
+                if depth == 0:
+                    break
+            k += 1
+        body = o[j + 2:k]
+        if body.startswith('+1*') and len(_split_top(body, ' ')) == 1 and k < len(o):
+            out += o[i:j] + _unwrap_unit_linear(body[3:])
+        else:
+            out += o[i:j] + 'L[' + _unwrap_unit_linear(body) + ']'
+        i = k + 1
+
+
+def _drop_steps(o, pred):
+    """remove the steps `pred` selects; later positional references `__k` are renumbered"""
+    import re as _re
+    bits = o.split(' || ')
+    steps = _split_top(bits[0], ' ; ')
+    drop = [i for i, t in enumerate(steps) if pred(t.strip())]
+    if not drop:
+        return o
+
+    def renum(t):
+        def f(m):
+            k = int(m.group(1))
+            return '__%d' % (k - sum(1 for d in drop if d < k))
+        return _re.sub(r'(?<![\w])__(\d+)\b', f, t)
+    steps = [renum(t) for i, t in enumerate(steps) if i not in drop]
+    return ' || '.join([' ; '.join(steps)] + [renum(b) for b in bits[1:]])
+
+
+def _is_noop_store(t):
+    """`store X = X` (the value X holds at that moment) changes nothing"""
+    return t.startswith('store ') and ' = ' in t and t[6:].split(' = ', 1)[0] == t[6:].split(' = ', 1)[1]
+
+
+def _is_new_field_store(t):
+    """a store into a field whose name occurs nowhere in the reviewed tree: no reviewed code can read it (additive API)"""
+    import re as _re
+    from . import names
+    if not t.startswith('store ') or ' = ' not in t:
+        return False
+    m = _re.fullmatch(r'[A-Za-z_][\w.]*\.([A-Za-z_]\w*)', t[6:].split(' = ', 1)[0])
+    ids = names.reviewed_identifiers()
+    return bool(m) and bool(ids) and m.group(1) not in ids
+
+
+def norm_outcome(o, analysed=False):
+    """spelling differences of an outcome that change nothing (for the analysed tree also: stores into new fields)"""
+    o = _unwrap_unit_linear(o)
+    if 'store ' in o:
+        o = _drop_steps(o, (lambda t: _is_noop_store(t) or _is_new_field_store(t)) if analysed else _is_noop_store)
+    return o
+
+
 def check_rows(have, want, same_locals=False, fresh=None):
     """compare the rows of one segment with the reviewed ones
        -> ('ok', n) | ('differs', [(want conds, want outcome, have conds, have outcome)]) | ('unknown', why)
@@ -1048,7 +1149,7 @@ def check_rows(have, want, same_locals=False, fresh=None):
             # a path is only compared with reviewed cases all of whose tests it makes itself.
             continue
         for wd, wc, wo in cons:
-            if wo != ho:
+            if wo != ho and norm_outcome(wo) != norm_outcome(ho, True):
                 differs.append((wc, wo, hc, ho))
                 break
     if differs:
